@@ -463,6 +463,10 @@ func (g *Gen) mkSession(peer string) *gsession {
 	}
 
 	n := 1 + g.R.Intn(2)
+	if g.R.Intn(12) == 0 {
+		n = 5 + g.R.Intn(4) // a large session: more rules of each kind than the agent's lists are created with room for (10)
+	}
+
 	for i := 0; i < n; i++ {
 		s.bearers = append(s.bearers, g.newBearer(s, usedFar, usedQer, false))
 	}
